@@ -52,6 +52,12 @@ func (r *run) roundTrip() (data []byte, ref snapshot, ok bool) {
 	if err != nil {
 		r.fail("round-trip", "writer-error", "writing %s failed: %v", a.desc, err)
 	}
+	if r.cd.name == "table" && len(data) > 1 && data[len(data)-1] == '\n' && c.Tape.Bool(1, 4) {
+		// the same table with its last line not newline-terminated (what
+		// writing the string returned by Table() to a file gives)
+		data = data[:len(data)-1]
+		c.Count("table:last-line-without-newline")
+	}
 	c.Logf("encoded (%s, %d bytes): %s", r.cd.name, len(data), describeBytes(data))
 	var dec interface{}
 	if pv, site := core.Try(func() { dec, err = r.cd.decode(a, data) }); pv != nil {
